@@ -273,7 +273,25 @@ static void real_run(int run, vt::rng& g, int iters)
         }
         // the grid that the *next* iteration will use must be the refinement of this one
         ref_step("run", 1000 + run, it, chk.results().back().pdf(), chk.alpha(), chk.results().back().adjustment_data());
+        vt::ev("NextGrid").i("run", run).i("it", it).i("chkId", grid_id(chk.pdf()))
+            .i("refId", grid_id(hep::vegas_refine_pdf(chk.results().back().pdf(), chk.alpha(), chk.results().back().adjustment_data()))).emit();
     }
+}
+
+// an iteration whose values cancel exactly (estimate 0) but whose squares do not vanish: the grid is refined like after any other
+template <typename T>
+static void cancel_case(std::size_t B, T alpha, int run)
+{
+    std::size_t const M = 64;
+    std::vector<std::uint64_t> sc;
+    for (std::size_t j = 0; j != M; ++j) sc.push_back((std::uint64_t) std::floor(std::ldexp((2.0L * j + 1.0L) / (2.0L * M), 64)));
+    auto fn = [](hep::vegas_point<T> const& p) { T x = p.point()[0]; return x >= T(0.75) ? T(2) : (x >= T(0.25) ? T(-1) : T()); };
+    auto chk = hep::make_vegas_chkpt<T, vt::script_engine>(B, alpha, vt::script_engine(vt::script_registry::add(sc)));
+    using C = decltype(chk);
+    chk = hep::vegas(hep::make_integrand<T>(fn, 1), std::vector<std::size_t>{M}, chk, hep::callback<C>(hep::callback_mode::silent));
+    auto const& r = chk.results().back();
+    vt::ev("NextGrid").i("run", run).i("it", 0).i("chkId", grid_id(chk.pdf())).i("refId", grid_id(hep::vegas_refine_pdf(r.pdf(), chk.alpha(), r.adjustment_data())))
+        .i("sumZero", r.sum() == T() ? 1 : 0).i("moved", grid_id(chk.pdf()) != grid_id(r.pdf()) ? 1 : 0).emit();
 }
 
 // default grids for many bin counts; inverse CDF at the extremes
@@ -338,6 +356,7 @@ int main(int argc, char** argv)
     {
         if (run == 0)
         {
+            cancel_case<float>(8, 1.5f, 9000); cancel_case<double>(8, 1.5, 9001); cancel_case<long double>(16, 0.5L, 9002); cancel_case<double>(4, 3.0, 9003);
             highdim_points<float>(8, 128, false, g); highdim_points<float>(19, 128, false, g); highdim_points<float>(40, 128, false, g);
             highdim_points<float>(12, 8, true, g); highdim_points<double>(50, 128, false, g); highdim_points<double>(110, 1024, false, g);
             highdim_points<double>(160, 128, false, g); highdim_points<double>(100, 16, true, g); highdim_points<long double>(200, 512, false, g);
